@@ -32,8 +32,10 @@ type Task struct {
 	Role     string
 	Point    string // where it is parked ("" = running or blocked inside the code)
 	wake     chan struct{}
-	credit   int // remaining gate passes before it parks again
-	lockPass int // remaining Engine.mu acquisitions it may make without parking (only while the lock is free)
+	credit   int    // remaining gate passes before it parks again
+	lockPass int    // remaining Engine.mu acquisitions it may make without parking (only while the lock is free)
+	wantMu   string // parked at "mutex.lock": the mutex (address as text) it is about to take
+	byDrain  bool   // woken by Drain
 	gid      uint64
 }
 
@@ -55,13 +57,16 @@ type Kernel struct {
 	GateN     int  // gate passes (evaluations) so far
 	lockHeld  bool // Engine.mu is held by a task of the code under test (engine.lock / engine.unlocked hooks)
 	lockBy    string
+	muHeld    map[string]string // simhook.Mutex instances (handle.mu) held right now -> holder
+	muFree    map[string]chan struct{}
+	engFree   chan struct{} // teardown: closed when Engine.mu is released
 	Ambiguous bool
 }
 
 // alwaysPark: after these points the task would otherwise run on in parallel with a task it has just
 // woken (search vs. the caller of Halt; timer callbacks vs. everything), which would make the
 // execution depend on real timing.
-var alwaysPark = map[string]bool{"fwd.done": true, "iter.sent": true, "halt.woken": true, "timer.movetime": true, "timer.hard": true, "timer.movetime.done": true, "loop.idle": true, "loop.recv": true}
+var alwaysPark = map[string]bool{"fwd.done": true, "iter.sent": true, "halt.woken": true, "halt.unwound": true, "timer.movetime": true, "timer.hard": true, "timer.movetime.done": true, "loop.idle": true, "loop.recv": true}
 
 func goid() uint64 {
 	var buf [64]byte
@@ -78,7 +83,7 @@ func goid() uint64 {
 // NewKernel installs the kernel as the simhook of /repo. Call from the bubble's root goroutine.
 func NewKernel(t *tape.Tape, res *core.RunResult) *Kernel {
 	GateBudget = core.Scale(50000, 200000)
-	k := &Kernel{T: t, Res: res, tasks: map[uint64]*Task{}, roleN: map[string]int{}, pass: map[string]bool{}, ctl: goid(), evHash: 1469598103934665603}
+	k := &Kernel{T: t, Res: res, tasks: map[uint64]*Task{}, roleN: map[string]int{}, pass: map[string]bool{}, muHeld: map[string]string{}, muFree: map[string]chan struct{}{}, ctl: goid(), evHash: 1469598103934665603}
 	simhook.Set(k.Park)
 	return k
 }
@@ -92,6 +97,7 @@ func (k *Kernel) Drain() {
 	k.mu.Unlock()
 	for _, t := range ps {
 		t.Point = ""
+		t.byDrain = true
 		close(t.wake)
 	}
 }
@@ -118,7 +124,7 @@ func roleOf(point string) string {
 		return "hard"
 	case strings.HasPrefix(point, "client"):
 		return point[:strings.IndexByte(point, '.')] // clientA.x, clientB.x: one role per simulated client
-	case strings.HasPrefix(point, "halt.") || strings.HasPrefix(point, "complete.") || strings.HasPrefix(point, "engine."):
+	case strings.HasPrefix(point, "halt.") || strings.HasPrefix(point, "complete.") || strings.HasPrefix(point, "engine.") || strings.HasPrefix(point, "mutex."):
 		return "anon" // says nothing about who the caller is; the role is settled at the first telling point
 	}
 	return "search" // search.gate, iter.*, tt.*
@@ -130,13 +136,60 @@ func (k *Kernel) Park(point string) {
 	if gid == k.ctl {
 		return
 	}
+	// simhook.Mutex (handle.mu): "mutex.lock#addr" before Lock, "mutex.unlocked#addr" after Unlock
+	muAddr := ""
+	if i := strings.IndexByte(point, '#'); i > 0 && strings.HasPrefix(point, "mutex.") {
+		point, muAddr = point[:i], point[i+1:]
+	}
 	k.mu.Lock()
-	if k.draining {
+	if point == "mutex.unlocked" {
+		delete(k.muHeld, muAddr)
+		if ch := k.muFree[muAddr]; ch != nil {
+			close(ch)
+			delete(k.muFree, muAddr)
+		}
 		k.mu.Unlock()
 		return
 	}
 	if point == "engine.unlocked" {
 		k.lockHeld, k.lockBy = false, ""
+		if k.engFree != nil {
+			close(k.engFree)
+			k.engFree = nil
+		}
+		k.mu.Unlock()
+		return
+	}
+	if k.draining {
+		// teardown: everything runs free, but still nobody may wait inside sync.Mutex.Lock (the bubble could
+		// not end: such a wait is not "durably blocked"); wait on a channel until the mutex is free
+		for point == "mutex.lock" {
+			if _, held := k.muHeld[muAddr]; !held {
+				k.muHeld[muAddr] = "(teardown)"
+				break
+			}
+			ch := k.muFree[muAddr]
+			if ch == nil {
+				ch = make(chan struct{})
+				k.muFree[muAddr] = ch
+			}
+			k.mu.Unlock()
+			<-ch
+			k.mu.Lock()
+		}
+		for point == "engine.lock" {
+			if !k.lockHeld {
+				k.lockHeld, k.lockBy = true, "(teardown)"
+				break
+			}
+			if k.engFree == nil {
+				k.engFree = make(chan struct{})
+			}
+			ch := k.engFree
+			k.mu.Unlock()
+			<-ch
+			k.mu.Lock()
+		}
 		k.mu.Unlock()
 		return
 	}
@@ -172,6 +225,16 @@ func (k *Kernel) Park(point string) {
 			k.mu.Unlock()
 			return
 		}
+	} else if point == "mutex.lock" {
+		// free: straight on (these sections are a few statements long and never park, so that within one
+		// step the mutex is always free again); held by a task that blocked inside its section: park,
+		// and become runnable only when it is free again (never wait inside sync.Mutex.Lock)
+		if _, held := k.muHeld[muAddr]; !held {
+			k.muHeld[muAddr] = tk.Name
+			k.mu.Unlock()
+			return
+		}
+		tk.wantMu = muAddr
 	} else if k.pass[point] && !alwaysPark[point] {
 		k.mu.Unlock()
 		return
@@ -185,6 +248,18 @@ func (k *Kernel) Park(point string) {
 	k.parked = append(k.parked, tk)
 	k.mu.Unlock()
 	<-ch
+	if point == "mutex.lock" || point == "engine.lock" {
+		k.mu.Lock()
+		woken := tk.byDrain
+		k.mu.Unlock()
+		if woken {
+			// woken by the teardown, not by a release (which books the mutex for the task)
+			if point == "mutex.lock" {
+				point += "#" + muAddr
+			}
+			k.Park(point)
+		}
+	}
 }
 
 // Wait lets everything run until every goroutine of the bubble is parked or durably blocked.
@@ -228,6 +303,17 @@ func (k *Kernel) Parked() []*Task {
 	return ps
 }
 
+// RunnableParked: the parked tasks that may be released now, in the order of Parked().
+func (k *Kernel) RunnableParked() []*Task {
+	var out []*Task
+	for _, t := range k.Parked() {
+		if k.Runnable(t) {
+			out = append(out, t)
+		}
+	}
+	return out
+}
+
 func (k *Kernel) FindParked(role string) *Task {
 	for _, t := range k.Parked() {
 		if t.Role == role {
@@ -239,6 +325,20 @@ func (k *Kernel) FindParked(role string) *Task {
 
 // Release lets a parked task run on; credit is the number of further gate passes it may make without parking.
 func (k *Kernel) Release(t *Task, credit int) { k.ReleaseWith(t, credit, 1<<30) }
+
+// Runnable: a parked task that may be released now (one parked in front of a mutex only while it is free).
+func (k *Kernel) Runnable(t *Task) bool {
+	k.mu.Lock()
+	defer k.mu.Unlock()
+	switch t.Point {
+	case "engine.lock":
+		return !k.lockHeld
+	case "mutex.lock":
+		_, held := k.muHeld[t.wantMu]
+		return !held
+	}
+	return true
+}
 
 // LockHeld: Engine.mu is held by some task; a task parked at engine.lock must not be released now.
 func (k *Kernel) LockHeld() bool {
@@ -271,6 +371,13 @@ func (k *Kernel) ReleaseWith(t *Task, credit, lockPass int) {
 			panic("sim: released a task into Engine.mu while it is held by " + k.lockBy)
 		}
 		k.lockHeld, k.lockBy = true, t.Name
+	}
+	if point == "mutex.lock" {
+		if by, held := k.muHeld[t.wantMu]; held {
+			k.mu.Unlock()
+			panic("sim: released a task into a mutex held by " + by)
+		}
+		k.muHeld[t.wantMu] = t.Name
 	}
 	ch := t.wake
 	k.mu.Unlock()
